@@ -153,12 +153,16 @@ pub fn scenario(idx: usize, seed: u64) -> ScenarioResult {
         let ky = w.gen_key();
         let y = peer_id_of_key(&ky);
         let adv = Adversary::new(&w.fabric, format!("10.71.{}.{}:4433", (idx / 250) % 250, 1 + idx % 250).parse().unwrap(), None);
-        let l = rng.gen_range(0..n);
-        let acc = accepted(&cfgs[l].0, &cfgs[l].1);
         let mut adv_admitted = 0u64;
         let mut adv_refused = 0u64;
         let mut names: Vec<&str> = fam.clone();
         names.push("other-net");
+        // every listener of the scenario in turn, so that a certificate one listener has accepted is
+        // then shown to listeners for other names (the certificate is the same bytes every time)
+        let mut listeners: Vec<usize> = (0..n).collect();
+        listeners.shuffle(&mut rng);
+        for l in listeners.into_iter().take(3) {
+        let acc = accepted(&cfgs[l].0, &cfgs[l].1);
         for s in &names {
             for c in &names {
                 let ident = CertKey::honest(ky, c);
@@ -180,6 +184,7 @@ pub fn scenario(idx: usize, seed: u64) -> ScenarioResult {
                 let _ = nodes[l].net.disconnect(y);
                 tokio::time::sleep(Duration::from_millis(50)).await;
             }
+        }
         }
         // adversarial listener presenting a certificate for another name
         let d = rng.gen_range(0..n);
